@@ -23,7 +23,21 @@ class C03(Prop):
             f, _ = G.rand_frame(rng, kinds, own=True, known_sender=True, known_kind=True,
                                 maxlen=rng.choice([10, 40, 200, 990]))
             rest = G.rand_payload(rng, rng.choice([0, 0, 1, 5, 20]), dense68=rng.random() < 0.3)
-            cases.append({"kind": "roundtrip", "f": [f[0], f[1], f[2], f[3], f[4], list(f[5])], "rest": list(rest)})
+            case = {"kind": "roundtrip", "f": [f[0], f[1], f[2], f[3], f[4], list(f[5])], "rest": list(rest)}
+            if rng.random() < 0.25:
+                # the frame object had an earlier life: built and serialised with other addressing / versions / payload, then
+                # re-assigned (attributes; payload through the setter or edited in place) to the fields of this case
+                pre = {"rcpt": rng.choice([f[1], 0x56, 0]), "sender": rng.choice([f[2], 0x45, 0x51]), "etype": rng.choice([f[3], rng.randrange(256)]),
+                       "ever": rng.choice([f[4], rng.randrange(256)]), "payload": list(f[5]), "inplace": False}
+                r = rng.random()
+                if r < 0.35 and f[5]:
+                    pre["payload"] = [rng.randrange(256) for _ in f[5]]
+                    pre["inplace"] = True
+                elif r < 0.6:
+                    pre["payload"] = [rng.randrange(256) for _ in range(rng.choice([0, 1, 7]))]
+                case["pre"] = pre
+                case["kind"] = "roundtrip"
+            cases.append(case)
         for i in range(n):
             f, _ = G.rand_frame(rng, kinds, own=None, known_sender=None, known_kind=True, maxlen=12)
             f = [f[0], f[1], f[2], f[3], f[4], list(f[5])]
@@ -93,7 +107,18 @@ class C03(Prop):
                 return {"error": type(e).__name__}
         if case["kind"] == "roundtrip":
             f = case["f"]
-            frame = FI.make_frame(*f)
+            pre = case.get("pre")
+            if pre is None:
+                frame = FI.make_frame(*f)
+            else:
+                frame = FI.make_frame(f[0], pre["rcpt"], pre["sender"], pre["etype"], pre["ever"], pre["payload"])
+                first = frame.bytes
+                assert first
+                frame.recipient, frame.sender, frame.econet_type, frame.econet_version = FI.addr(f[1]), FI.addr(f[2]), f[3], f[4]
+                if pre["inplace"]:
+                    frame.message[:] = bytes(f[5])
+                elif list(pre["payload"]) != list(f[5]):
+                    frame.message = bytearray(f[5])
             bs = frame.bytes
             outs = reader_impl.read_all(bs + bytes(case["rest"]), max_calls=1)
             return {"bytes": list(bs), "read": outs}
